@@ -11,6 +11,7 @@
    correspondence only - cyclic_links_diverge shows why no general convergence theorem holds. *)
 From Coq Require Import ZArith List Bool Arith.
 From TV Require Import Common.Harness C20.ListSem C20.ListProofs C20.Model C20.Law C20.Steps C20.Proofs C20.Termination C20.SliceProofs C20.Star C20.StarProofs.
+From TV Require C20.Spread.
 Import ListNotations.
 Open Scope Z_scope.
 
@@ -85,6 +86,38 @@ Theorem two_partners_converge :
     overflow (fst r) = false.
 Proof. exact star_converges. Qed.
 Print Assumptions two_partners_converge.
+
+(* ASSIGNMENTS converge on EVERY link graph: arbitrary pool, arbitrary tables (stars, chains, trees,
+   cycles, aliases, one-way and mutual links, scalar and list traits).  If the linked traits agreed
+   before, then after setattr(o, n, v) every trait reachable from (o, n) holds v, nothing else is
+   touched, no RecursionError, tables / handlers / locks as before. *)
+Theorem assignment_converges_on_every_graph :
+  forall v f st o n,
+  Spread.wf st v -> Spread.consistent st -> Spread.no_locks st -> overflow st = false -> (Phi st < f)%nat ->
+  kind_ok n v = true -> Spread.in_range st (o, n) ->
+  let st' := fst (assign f st o n v) in
+  overflow st' = false /\ same_frame st st' /\
+  (forall y, Spread.reach st (o, n) y -> Spread.val st' y = v) /\
+  (forall y, ~ Spread.reach st (o, n) y -> Spread.val st' y = Spread.val st y).
+Proof.
+  intros v f st o n W C NL Hov HPhi Hk Hr st'.
+  destruct (Spread.assign_converges v f st o n W C NL Hov HPhi Hk Hr) as (O' & F' & Hall & _).
+  split; [exact O'|]. split; [exact F'|]. split; [exact Hall|].
+  intros y Hnr. destruct (Spread.val_dec (Spread.val st' y) (Spread.val st y)) as [E|E]; [exact E|].
+  exfalso. apply Hnr. eapply Spread.assign_touches_only_reachable; [exact Hov|apply (NL (o, n))|exact HPhi|exact E].
+Qed.
+Print Assumptions assignment_converges_on_every_graph.
+
+(* ... hence on every MUTUAL link graph every history of assignments (through Model.step) leaves all
+   linked traits equal after every operation *)
+Theorem assignment_histories_converge_on_mutual_graphs :
+  forall fuel ops st,
+  Spread.symmetric st -> Spread.consistent st -> Spread.no_locks st -> overflow st = false -> (Phi st < fuel)%nat ->
+  Spread.assigns_ok st ops ->
+  Spread.consistent (Spread.final fuel st ops) /\ overflow (Spread.final fuel st ops) = false /\
+  same_frame st (Spread.final fuel st ops).
+Proof. exact Spread.assignment_histories_converge. Qed.
+Print Assumptions assignment_histories_converge_on_mutual_graphs.
 
 Theorem mutual_converges :
   forall F n m va vb nts o,
@@ -186,6 +219,23 @@ Theorem cyclic_links_diverge :
      = [[[VS 0; VS 0; VL [1; 5]; VL []]; [VS 0; VS 0; VL [1; 5; 5]; VL []]; [VS 0; VS 0; VL [1; 5; 5]; VL []]]].
 Proof. vm_compute. split; reflexivity. Qed.
 Print Assumptions cyclic_links_diverge.
+
+(* Non-vacuity of the graph theorems: five objects, a cycle 0 - 1 - 2 - 0 with an alias, a tail 2 - 3 - 4,
+   built by sync_trait itself; its hypotheses are decided by the (sound) boolean checkers of Spread.v. *)
+Definition graph_ops : list op :=
+  [Sync 0 0 1 0 true; Sync 1 0 2 1 true; Sync 2 1 0 0 true; Sync 2 1 3 0 true; Sync 3 0 4 0 true]%nat.
+Definition graph_st : state :=
+  Spread.final 40 (init_state [tv 5 0 [] []; tv 1 1 [] []; tv 2 2 [] []; tv 3 3 [] []; tv 4 4 [] []]) graph_ops.
+Example graph_history_converges :
+  let h := [Assign 4 0 (VS 7); Assign 1 0 (VS 9); Assign 2 1 (VS 3); Assign 0 1 (VS 8)]%nat in
+  Spread.consistent (Spread.final 40 graph_st h)
+  /\ map (fun x => Spread.val (Spread.final 40 graph_st h) x) [(0, 0); (1, 0); (2, 1); (3, 0); (4, 0); (0, 1)]%nat
+     = [VS 3; VS 3; VS 3; VS 3; VS 3; VS 8]
+  /\ Phi graph_st = 5%nat.
+Proof.
+  split; [|vm_compute; split; reflexivity].
+  apply Spread.assignment_histories_converge_checked; vm_compute; reflexivity.
+Qed.
 
 (* Non-vacuity: an accepted history in which values propagate in both directions, an extended-slice
    mutation (outside simple_mut) is replayed, an operation raises, the link is removed, re-created
